@@ -1,9 +1,14 @@
 (** Canonical model line and property oracle for C14 (task tracker / pipeline submissions).
 
-    [model_line ids picks]: the program counters the model of the REPAIRED code predicts for the
-    explicit picks, then for the drain rounds, then [OK] (every submitter returned) or
-    [DEADLOCK]; the harness prints the same from the schedule points the real code stops at:
-      T tracked (S1)   Q event queued (S2)   E Notified created + enabled (S3r)
+    [model_line ids picks]: where every submitter's [Pipeline::process] is parked before the
+    first pick ([Kt]: at the entry of [TaskTracker::track], nothing done yet — the model's [S0]),
+    then the program counters the model of the REPAIRED code predicts for the explicit picks,
+    then for the drain rounds, then [OK] (every submitter returned) or [DEADLOCK]; the harness
+    prints the same from the schedule points the REAL [Pipeline::process] future stops at, so the
+    line shows the order in which the real code tracks and sends:
+      Kt parked before track (S0)
+      T tracked, parked in send (S1)   Q event sent, parked at the entry of Task::ready (S2)
+      E Notified created + enabled (S3r)
       C checked, no result yet (S4)   W woken (S5)   D<r> returned result r
       P1 event received   P2 entry removed (lock held)   P3 result set   P0 notified, unlocked
       -  the picked actor cannot move.
@@ -13,14 +18,18 @@
     with its own id.
 
     [stress_line]/[check_stress]: the stress run through the real [Pipeline::process]: all [k]
-    submissions return their own operation (what the theorems predict). *)
+    submissions return their own operation (what the theorems predict).  [count_line tag k] /
+    [check_count]: the same shape for the other whole-run scenarios — [PAUSED] (real pipeline
+    thread, the hand-polled submitters pause at every schedule point) and [MT] ([k] waiters of one
+    task on [k] OS threads with a slow [Clone] of the result, i.e. contention on the result
+    mutex; predicted by [C14_contended_readers_return]). *)
 From Coq Require Import List Arith NArith Bool String.
 From PV Require Import Model.Tasks Lib.Show.
 Import ListNotations.
 
 Definition show_spc (p : spc) : string :=
   match p with
-  | S0 => "S0" | S1 _ => "T" | S2 _ => "Q" | S3 _ => "c" | S3r _ _ => "E" | S4 _ _ => "C" | S5 _ => "W"
+  | S0 => "Kt" | S1 _ => "T" | S2 _ => "Q" | S3 _ => "c" | S3r _ _ => "E" | S4 _ _ => "C" | S5 _ => "W"
   | SDone r => "D" ++ show_nat r
   end%string.
 Definition show_ppc (p : ppc) : string :=
@@ -28,9 +37,13 @@ Definition show_ppc (p : ppc) : string :=
 Definition show_tok (t : tok) : string :=
   match t with TBlocked => "-" | TSub p => show_spc p | TPipe p => show_ppc p end%string.
 
+(** Before the first pick every submitter is at [S0]: parked in front of [track]. *)
+Definition show_parked (ids : list nat) : string :=
+  show_list (fun i => show_spc (subs init i)) " " (seq 0 (List.length ids)).
+
 Definition model_line (ids : list nat) (picks : list nat) : string :=
   let '(s, ts, ds) := run_schedule true ids picks in
-  (show_list show_tok " " ts ++ " / " ++ show_list show_tok " " ds ++ " / "
+  (show_parked ids ++ " / " ++ show_list show_tok " " ts ++ " / " ++ show_list show_tok " " ds ++ " / "
    ++ (if all_doneb ids s then "OK" else "DEADLOCK"))%string.
 
 (** The same for the order before the repair (used only to document the regression witness). *)
@@ -51,3 +64,7 @@ Definition check (ids : list nat) (results : list (option nat)) : bool :=
 
 Definition stress_line (k : N) : string := ("STRESS returned=" ++ show_N k ++ " own=" ++ show_N k)%string.
 Definition check_stress (k returned owned : N) : bool := N.eqb returned k && N.eqb owned k.
+
+Definition count_line (tag : string) (k : N) : string :=
+  (tag ++ " returned=" ++ show_N k ++ " own=" ++ show_N k)%string.
+Definition check_count (k returned owned : N) : bool := N.eqb returned k && N.eqb owned k.
